@@ -45,6 +45,12 @@ def lean_sources():
     return fs
 
 
+def lean_recheck(prop):
+    """thorough tier: independent re-check of the compiled Props module with leanchecker"""
+    rc, out, err = sh(["lake", "env", "leanchecker", "TeaalVerif.Props." + prop], cwd=LEAN, timeout=1800)
+    return rc == 0, (out + err)[-400:]
+
+
 def lean_build_and_audit(prop):
     """lake build; grep for forbidden constructs; `#print axioms` of every theorem of Props/<prop>.lean.
     Returns dict(ok, obligations, discharged, theorems=[...], problems=[...])."""
